@@ -262,8 +262,21 @@ func c19Clamp(alt float64) float64 {
 }
 
 // c19RoundTrip encodes a track and reads it back.
+// c19Zones are the process time zones the round trips run under: the format is
+// defined in UTC, so the zone of the machine must not matter.
+var c19Zones = []*time.Location{
+	time.UTC,
+	time.FixedZone("+0530", 5*3600+1800),
+	time.FixedZone("-0900", -9*3600),
+	time.FixedZone("+1400", 14*3600),
+	time.FixedZone("-1130", -11*3600-1800),
+}
+
 func c19RoundTrip(c *fw.Ctx, fixes []fix, layout geom.Layout) {
 	c.SetInput(c19Desc(fixes, layout))
+	zone := c19Zones[c.R.Intn(len(c19Zones))]
+	time.Local = zone
+	c.Count("process_zone_" + zone.String())
 	stride := layout.Stride()
 	flat := make([]float64, 0, len(fixes)*stride)
 	for _, f := range fixes {
